@@ -201,8 +201,11 @@ def o_C05(tr: Trace, h: str = "D") -> Fails:
             was_idle = before is None or before.state == "IDLE"
             rdy_blocked = (not was_idle) and before is not None and before.rdy > 0
             if k == "md" and not rdy_blocked:
+                # (the Metadata-Recv indication has no switch: it is delivered whenever a Metadata PDU is taken,
+                # also when the same call ends the transaction, e.g. late Metadata + checksum failure + abandon)
                 accepted = after.fsz != "-" and (was_idle or before.fsz == "-") and after.state == "BUSY" \
-                    or (was_idle and e.exc is None and q["sname"] != "-" and q["dname"] != "-")
+                    or (was_idle and e.exc is None and q["sname"] != "-" and q["dname"] != "-") \
+                    or any(x.startswith("mdrecv(") for x in after.ind)
                 if accepted and q["sname"] != "-" and q["dname"] != "-":
                     # a transaction (re)starts: the previous destination file becomes an ordinary path
                     if path is not None:
